@@ -1323,7 +1323,6 @@ func bystanderOK(e *actor.Engine, wd time.Duration) bool {
 	}
 }
 
-
 // lostRequestProof decides on state that a stop request can no longer take
 // effect. S1 is sent after the request; once S1 has been handled S2 is sent, so
 // S2 sits in a later inbox batch than the request. The worker finishes a batch
